@@ -81,7 +81,9 @@ Inductive cinput :=
 | InRowArrays (rows : list (list Z))                 (* list of 1-D ndarrays *)
 | InRowDicts (rows : list (list entry3))             (* list of dicts {(a, col): value}, one per vector *)
 | InSparseRows (rows : list (nat * row_entries))     (* list of 1 x w sparse matrices: (w, stored entries) *)
-| InSparse (nr nc : nat) (l : list entry3).          (* scipy sparse matrix of any layout: shape + stored entries *)
+| InSparse (nr nc : nat) (l : list entry3)           (* scipy sparse matrix of any layout: shape + stored entries *)
+| InDokRows (rows : list (nat * row_entries)).        (* list of 1 x w sparse rows whose FIRST one is a dok_matrix
+                                                        (the other rows in any layout): (w, stored entries) *)
 
 (* Table._to_sparse followed by tocsr: (n_rows, n_cols, entries).  [shape] is what the
    constructor passes: (number of observation ids, number of sample ids). *)
@@ -130,6 +132,21 @@ Definition to_coo (inp : cinput) (shape : nat * nat) : result (nat * nat * list 
           then coo_checked (length rows) w (flatten (map snd rows)) else RErr E_VALUE
       end                                                                          (* 645-649, 5534-5570 *)
   | InSparse nr nc l => coo_checked nr nc l                                        (* 489: data.tocsr() *)
+  | InDokRows rows =>
+      (* scipy's dok_matrix is a dict subclass: _to_sparse tests isinstance(values[0], dict) before
+         isspmatrix(values[0]), so the list goes to list_dict_to_sparse and takes its isspmatrix branch
+         (5629-5637): the FIRST row states the width, the shape from the ids is not used for sparse
+         vectors (repair 3ab6fd0d), a row in another layout is read through todok() (repair ae5dfffc);
+         the widths of the other rows are not compared, an entry beyond the first row's width is
+         scipy's ValueError *)
+      match rows with
+      | [] => empty
+      | (w0, _) :: _ =>
+          if Nat.ltb w0 1 then                           (* 1 > w0: the rows are taken for columns *)
+            coo_checked 1 (length rows)
+                        (flatten_col_from 0 (map (fun r => map (fun cv => (0, fst cv, snd cv)) (snd r)) rows))
+          else coo_checked (length rows) w0 (flatten (map snd rows))
+      end
   end.
 
 Definition to_dense (inp : cinput) (shape : nat * nat) : result (nat * nat * matrix) :=
@@ -214,6 +231,8 @@ Definition enc_rowdicts (m : matrix) : cinput :=
 Definition enc_sparserows (c : nat) (m : matrix) : cinput :=
   InSparseRows (map (fun r => (c, nz_row (enum_from 0 r))) m).
 Definition enc_sparse (c : nat) (m : matrix) : cinput := InSparse (length m) c (scan m).
+Definition enc_dokrows (c : nat) (m : matrix) : cinput :=
+  InDokRows (map (fun r => (c, nz_row (enum_from 0 r))) m).
 
 (* an arbitrary entry list describing m: any order, explicit zeros, a value split over several
    entries of one cell (which COO sums) *)
